@@ -480,3 +480,224 @@ Section CompleteThreshMain.
       apply (pick_sigs_a_count ke A se f L Habs_unit Hrel_unit) in H. apply Nat.ltb_lt in Ec. lia.
   Qed.
 End CompleteThreshMain.
+
+(* ---------- discharging [thresh_fit] from a syntactic bound ---------- *)
+(* an upper bound on the number of witness elements of any (dis)satisfaction the model builds *)
+Fixpoint max_elems (ke : keyenv) (m : ms) : nat :=
+  match m with
+  | MTrue | MFalse | MRawPkH _ | MAfter _ | MOlder _ => 0
+  | MPkK _ => 1
+  | MPkH _ => 2
+  | MSha256 _ | MHash256 _ | MRipemd160 _ | MHash160 _ => 1
+  | MAlt x | MSwap x | MCheck x | MZeroNotEqual x | MVerify x => max_elems ke x
+  | MDupIf x | MNonZero x => S (max_elems ke x)
+  | MAndV x y | MAndB x y | MOrB x y | MOrD x y | MOrC x y => max_elems ke x + max_elems ke y
+  | MOrI x y => S (max_elems ke x + max_elems ke y)
+  | MAndOr a b c => max_elems ke a + max_elems ke b + max_elems ke c
+  | MThresh _ xs => list_sum (map (max_elems ke) xs)
+  | MMulti k _ | MSortedMulti k _ => S (N.to_nat k)
+  | MMultiA _ ks => length ks
+  | MSortedMultiA _ ks => length (ksort ke ks)
+  end.
+
+Lemma list_sum_cons a l : list_sum (a :: l) = (a + list_sum l)%nat.
+Proof. reflexivity. Qed.
+Lemma list_sum_le_map {X} (f g : X -> nat) l : (forall x, In x l -> (f x <= g x)%nat) ->
+  (list_sum (map f l) <= list_sum (map g l))%nat.
+Proof.
+  induction l as [|x r IH]; intros H; [cbn; lia|]. cbn [map]; rewrite ?list_sum_cons.
+  pose proof (H x (or_introl eq_refl)). assert ((list_sum (map f r) <= list_sum (map g r))%nat) by (apply IH; intros y Hy; apply H; right; exact Hy). lia.
+Qed.
+Lemma map_nth_seq_gen {X Y} (g : X -> Y) (l : list X) d : forall a,
+  map (fun i => g (nth (i - a) l d)) (seq a (length l)) = map g l.
+Proof.
+  induction l as [|x r IH]; intros a; [reflexivity|]. cbn [length seq map]. rewrite Nat.sub_diag. cbn [nth]. f_equal.
+  rewrite <- (IH (S a)). apply map_ext_in. intros i Hi. apply in_seq in Hi. replace (i - a)%nat with (S (i - S a)) by lia. reflexivity.
+Qed.
+Lemma swap_in_seq chosen dissats sats :
+  swap_in chosen dissats sats
+  = map (fun i => if existsb (Nat.eqb i) chosen then nth_sat sats i else nth_sat dissats i) (seq 0 (length dissats)).
+Proof.
+  unfold swap_in.
+  assert (Hc : forall (dl : list satn) a,
+     map (fun p => if existsb (Nat.eqb (fst p)) chosen then nth_sat sats (fst p) else snd p) (combine (seq a (length dl)) dl)
+     = map (fun i => if existsb (Nat.eqb i) chosen then nth_sat sats i else nth (i - a) dl IMPOSSIBLE) (seq a (length dl))).
+  { induction dl as [|d r IHd]; intros a; [reflexivity|]. cbn [length seq combine map fst snd].
+    rewrite Nat.sub_diag. cbn [nth]. f_equal. rewrite IHd. apply map_ext_in. intros i Hi. apply in_seq in Hi.
+    destruct (existsb (Nat.eqb i) chosen); [reflexivity|]. replace (i - a)%nat with (S (i - S a)) by lia. reflexivity. }
+  rewrite Hc. apply map_ext. intros i. rewrite Nat.sub_0_r. reflexivity.
+Qed.
+
+Section LenBound.
+  Variable ke : keyenv.
+  Variable se : senv.
+
+  Definition slen (s : satn) : nat := match s_stack s with WStack l => length l | _ => 0%nat end.
+
+  Lemma slen_concat a b : (slen (concatenate_rev a b) <= slen a + slen b)%nat.
+  Proof.
+    unfold concatenate_rev, slen. destruct (is_imp (s_stack a) || is_imp (s_stack b)); [cbn; lia|].
+    destruct (merge_lock rel_max (s_rel a) (s_rel b)); [|cbn; lia].
+    destruct (merge_lock abs_max (s_abs a) (s_abs b)); [|cbn; lia].
+    cbn [s_stack]. destruct (s_stack a), (s_stack b); cbn [wcombine]; try lia. rewrite app_length. lia.
+  Qed.
+  Lemma slen_min (mall : bool) a b : (slen ((if mall then minimum_mall se else minimum se) a b) <= Nat.max (slen a) (slen b))%nat.
+  Proof.
+    destruct mall.
+    - unfold minimum_mall. destruct (is_stack (s_stack a)); cbn [negb]; [|lia]. destruct (is_stack (s_stack b)); cbn [negb]; [|lia].
+      destruct (wit_lt se (s_stack a) (s_stack b)); unfold slen; cbn [s_stack]; fold (slen a); fold (slen b); lia.
+    - unfold minimum. destruct (is_imp (s_stack a)); [lia|]. destruct (is_imp (s_stack b)); [lia|].
+      destruct (s_has_sig a), (s_has_sig b); try destruct (wit_lt se (s_stack a) (s_stack b)); unfold slen; cbn [s_stack UNAVAILABLE];
+        fold (slen a); fold (slen b); lia.
+  Qed.
+  Lemma slen_push s p : (slen (with_stack s (wcombine (s_stack s) (WStack [p]))) <= S (slen s))%nat.
+  Proof. unfold slen. cbn [with_stack s_stack]. destruct (s_stack s); cbn [wcombine]; try lia. rewrite app_length. cbn [length]. lia. Qed.
+  Lemma slen_fold l : forall acc, (slen (fold_left concatenate_rev l acc) <= slen acc + list_sum (map slen l))%nat.
+  Proof.
+    induction l as [|x r IH]; intros acc; cbn [fold_left map]; rewrite ?list_sum_cons; [lia|].
+    specialize (IH (concatenate_rev acc x)). pose proof (slen_concat acc x). lia.
+  Qed.
+  Lemma slen_flatten l : (slen (flatten_rev l) <= list_sum (map slen l))%nat.
+  Proof. unfold flatten_rev. pose proof (slen_fold l TRIVIAL). cbn in *. lia. Qed.
+
+  Lemma take_avail_len ks : forall k, (length (take_avail se k ks) <= k)%nat.
+  Proof.
+    induction ks as [|key r IH]; intros k; cbn [take_avail]; [cbn; lia|].
+    destruct (se_sig se key); [destruct k as [|k']; [apply IH | cbn [length]; specialize (IH k'); lia] | apply IH].
+  Qed.
+  Lemma multi_a_fill_len ks : forall k, length (multi_a_fill se k ks) = length ks.
+  Proof.
+    induction ks as [|key r IH]; intros k; cbn [multi_a_fill]; [reflexivity|].
+    destruct (se_sig se key); [destruct k|]; cbn [length]; rewrite IH; reflexivity.
+  Qed.
+  Lemma slen_multi k ks : (slen (fst (sd_multi se k ks)) <= S (N.to_nat k) /\ slen (snd (sd_multi se k ks)) <= S (N.to_nat k))%nat.
+  Proof.
+    unfold sd_multi. cbv zeta. destruct (Nat.ltb _ _); cbn [fst snd]; unfold slen; cbn [s_stack IMPOSSIBLE]; rewrite ?repeat_length; split; try lia.
+    cbn [length]. pose proof (take_avail_len ks (N.to_nat k)). lia.
+  Qed.
+  Lemma slen_multi_a k ks : (slen (fst (sd_multi_a se k ks)) <= length ks /\ slen (snd (sd_multi_a se k ks)) <= length ks)%nat.
+  Proof.
+    unfold sd_multi_a. cbv zeta. destruct (Nat.ltb _ _); cbn [fst snd]; unfold slen; cbn [s_stack IMPOSSIBLE]; rewrite ?repeat_length; split; try lia.
+    rewrite multi_a_fill_len, rev_length. lia.
+  Qed.
+
+  Lemma slen_swap chosen (xs : list ms) (ds : list (satn * satn)) (B : ms -> nat) :
+    length ds = length xs ->
+    (forall i, (i < length xs)%nat -> slen (fst (nth i ds (IMPOSSIBLE, IMPOSSIBLE))) <= B (nth i xs MTrue) /\
+                                     slen (snd (nth i ds (IMPOSSIBLE, IMPOSSIBLE))) <= B (nth i xs MTrue))%nat ->
+    (list_sum (map slen (swap_in chosen (map fst ds) (map snd ds))) <= list_sum (map B xs))%nat.
+  Proof.
+    intros Hlen HB. rewrite swap_in_seq, map_map, map_length, Hlen.
+    rewrite <- (map_nth_seq_gen B xs MTrue 0).
+    apply list_sum_le_map. intros i Hi. apply in_seq in Hi. rewrite Nat.sub_0_r.
+    destruct (HB i ltac:(lia)) as [H1 H2]. unfold nth_sat.
+    rewrite (nth_map_d fst ds i (IMPOSSIBLE, IMPOSSIBLE)) by lia. rewrite (nth_map_d snd ds i (IMPOSSIBLE, IMPOSSIBLE)) by lia.
+    destruct (existsb (Nat.eqb i) chosen); assumption.
+  Qed.
+
+  Theorem stack_len_bound (mall rhs : bool) : forall m,
+    (slen (fst (sat_dissat ke se mall rhs m)) <= max_elems ke m /\ slen (snd (sat_dissat ke se mall rhs m)) <= max_elems ke m)%nat.
+  Proof.
+    induction m using ms_ind'; cbn [sat_dissat max_elems].
+    - cbn. lia.
+    - cbn. lia.
+    - unfold sd_pk_k, w_signature, slen. cbn [fst snd s_stack push_0]. destruct (se_sig se k); cbn; lia.
+    - unfold sd_pk_h, w_signature, slen. cbn [fst snd s_stack]. destruct (se_sig se k); cbn; lia.
+    - cbn. lia.
+    - unfold sd_time, slen. cbn [fst snd]. destruct (se_after se t); [|destruct rhs]; cbn; lia.
+    - unfold sd_time, slen. cbn [fst snd]. destruct (se_older se t); [|destruct rhs]; cbn; lia.
+    - unfold sd_hash, w_preimage, slen. cbn [fst snd s_stack]. destruct (se_pre se HSha256 h); cbn; lia.
+    - unfold sd_hash, w_preimage, slen. cbn [fst snd s_stack]. destruct (se_pre se HHash256 h); cbn; lia.
+    - unfold sd_hash, w_preimage, slen. cbn [fst snd s_stack]. destruct (se_pre se HRipemd160 h); cbn; lia.
+    - unfold sd_hash, w_preimage, slen. cbn [fst snd s_stack]. destruct (se_pre se HHash160 h); cbn; lia.
+    - exact IHm. - exact IHm. - exact IHm.
+    - (* d *) destruct (sat_dissat ke se mall rhs m) as [d0 sub]. cbn [fst snd] in *. destruct IHm as [_ Hs].
+      pose proof (slen_push sub PhPushOne). split; [cbn; lia | lia].
+    - (* v *) destruct (sat_dissat ke se mall rhs m) as [d0 sub]. cbn [fst snd] in *. destruct IHm as [_ Hs]. split; [cbn; lia | lia].
+    - (* j *) destruct (sat_dissat ke se mall rhs m) as [d0 sub]. cbn [fst snd] in *. destruct IHm as [_ Hs]. split; [cbn; lia | lia].
+    - exact IHm.
+    - (* and_v *) destruct (sat_dissat ke se mall rhs m1) as [ld ls], (sat_dissat ke se mall rhs m2) as [rd rs]. cbn [fst snd] in *.
+      pose proof (slen_concat ls rd). pose proof (slen_concat ls rs). lia.
+    - (* and_b *) destruct (sat_dissat ke se mall rhs m1) as [ld ls], (sat_dissat ke se mall rhs m2) as [rd rs]. cbn [fst snd] in *.
+      pose proof (slen_concat ld rd). pose proof (slen_concat ls rs). lia.
+    - (* andor *) destruct (sat_dissat ke se mall rhs m1) as [ad asat], (sat_dissat ke se mall rhs m2) as [bd bs], (sat_dissat ke se mall rhs m3) as [cd cs].
+      cbn [fst snd] in *. pose proof (slen_concat ad cd). pose proof (slen_concat asat bs). pose proof (slen_concat ad cs).
+      pose proof (slen_min mall (concatenate_rev asat bs) (concatenate_rev ad cs)). lia.
+    - (* or_b *) destruct (sat_dissat ke se mall rhs m1) as [ld ls], (sat_dissat ke se mall rhs m2) as [rd rs]. cbn [fst snd] in *.
+      pose proof (slen_concat ld rd). pose proof (slen_concat ld rs). pose proof (slen_concat ls rd).
+      pose proof (slen_min mall (concatenate_rev ld rs) (concatenate_rev ls rd)). lia.
+    - (* or_d *) destruct (sat_dissat ke se mall rhs m1) as [ld ls], (sat_dissat ke se mall rhs m2) as [rd rs]. cbn [fst snd] in *.
+      pose proof (slen_concat ld rd). pose proof (slen_concat ld rs).
+      pose proof (slen_min mall ls (concatenate_rev ld rs)). lia.
+    - (* or_c *) destruct (sat_dissat ke se mall rhs m1) as [ld ls], (sat_dissat ke se mall rhs m2) as [rd rs]. cbn [fst snd] in *.
+      pose proof (slen_concat ld rs). pose proof (slen_min mall ls (concatenate_rev ld rs)). split; [cbn; lia | lia].
+    - (* or_i *) destruct (sat_dissat ke se mall rhs m1) as [ld ls], (sat_dissat ke se mall rhs m2) as [rd rs]. cbn [fst snd] in *.
+      pose proof (slen_push ld PhPushOne). pose proof (slen_push rd PhPushZero). pose proof (slen_push ls PhPushOne). pose proof (slen_push rs PhPushZero).
+      pose proof (slen_min mall (with_stack ld (wcombine (s_stack ld) (WStack [PhPushOne]))) (with_stack rd (wcombine (s_stack rd) (WStack [PhPushZero])))).
+      pose proof (slen_min mall (with_stack ls (wcombine (s_stack ls) (WStack [PhPushOne]))) (with_stack rs (wcombine (s_stack rs) (WStack [PhPushZero])))).
+      lia.
+    - (* thresh *) rewrite ds_thresh. set (ds := map (sat_dissat ke se mall rhs) xs). cbn [fst snd].
+      assert (Hlen : length ds = length xs) by (unfold ds; apply map_length).
+      assert (HB : forall i, (i < length xs)%nat -> (slen (fst (nth i ds (IMPOSSIBLE, IMPOSSIBLE))) <= max_elems ke (nth i xs MTrue) /\
+                                                     slen (snd (nth i ds (IMPOSSIBLE, IMPOSSIBLE))) <= max_elems ke (nth i xs MTrue))%nat).
+      { intros i Hi. unfold ds. rewrite (nth_map_d (sat_dissat ke se mall rhs) xs i MTrue) by exact Hi. exact (forall_nth _ xs MTrue i H Hi). }
+      assert (HD : (list_sum (map slen (map fst ds)) <= list_sum (map (max_elems ke) xs))%nat).
+      { rewrite map_map. rewrite <- (map_nth_seq_gen (fun d => slen (fst d)) ds (IMPOSSIBLE, IMPOSSIBLE) 0), <- (map_nth_seq_gen (max_elems ke) xs MTrue 0), Hlen.
+        apply list_sum_le_map. intros i Hi. apply in_seq in Hi. rewrite Nat.sub_0_r. apply HB. lia. }
+      assert (HS : (list_sum (map slen (map snd ds)) <= list_sum (map (max_elems ke) xs))%nat).
+      { rewrite map_map. rewrite <- (map_nth_seq_gen (fun d => slen (snd d)) ds (IMPOSSIBLE, IMPOSSIBLE) 0), <- (map_nth_seq_gen (max_elems ke) xs MTrue 0), Hlen.
+        apply list_sum_le_map. intros i Hi. apply in_seq in Hi. rewrite Nat.sub_0_r. apply HB. lia. }
+      split; [pose proof (slen_flatten (map fst ds)); lia|].
+      destruct (N.eqb k (N.of_nat (length xs))); [pose proof (slen_flatten (map snd ds)); lia|].
+      destruct mall.
+      + unfold thresh_mall. cbv zeta. match goal with |- (slen (flatten_rev (swap_in ?c _ _)) <= _)%nat =>
+          pose proof (slen_flatten (swap_in c (map fst ds) (map snd ds))); pose proof (slen_swap c xs ds (max_elems ke) Hlen HB) end. lia.
+      + unfold thresh_nonmall. cbv zeta. destruct (is_imp _); [cbn; lia|]. destruct (negb _ && negb _); [cbn; lia|].
+        match goal with |- (slen (flatten_rev (swap_in ?c _ _)) <= _)%nat =>
+          pose proof (slen_flatten (swap_in c (map fst ds) (map snd ds))); pose proof (slen_swap c xs ds (max_elems ke) Hlen HB) end. lia.
+    - apply slen_multi.
+    - apply slen_multi.
+    - apply slen_multi_a.
+    - apply slen_multi_a.
+  Qed.
+
+  (* sizes: every placeholder weighs at most 73 bytes when the environment's figures are the real
+     ones (keys <= 66 bytes incl. the push, Schnorr signatures <= 65 bytes) *)
+  Hypothesis Hpk : forall k, (se_pklen se k <= 73)%N.
+  Hypothesis Hsg : forall k sz, se_sig se k = Some sz -> (sz < 73)%N.
+
+  Lemma ph_size_le p : (ph_size se p <= 73)%N.
+  Proof.
+    destruct p; cbn [ph_size]; try lia; [apply Hpk|].
+    destruct (se_tap se); [|lia]. destruct (se_sig se k) as [sz|] eqn:E; [apply Hsg in E; lia | lia].
+  Qed.
+  Lemma varint_len_le n : (varint_len n <= 9)%N.
+  Proof. unfold varint_len. destruct (n <? 253)%N; [lia|]. destruct (n <=? 65535)%N; [lia|]. destruct (n <=? 4294967295)%N; lia. Qed.
+  Lemma witness_size_le l : (witness_size se l <= 73 * N.of_nat (length l) + 9)%N.
+  Proof.
+    unfold witness_size.
+    assert (G : (fold_right (fun p a => ph_size se p + a) 0 l <= 73 * N.of_nat (length l))%N).
+    { induction l as [|p r IH]; [cbn; lia|]. cbn [fold_right length]. rewrite Nat2N.inj_succ. pose proof (ph_size_le p). lia. }
+    pose proof (varint_len_le (N.of_nat (length l))). lia.
+  Qed.
+
+  Theorem fit_of_bound rhs : forall m, (N.of_nat (max_elems ke m) < 2 ^ 55)%N -> thresh_fit ke se rhs m.
+  Proof.
+    assert (Hw : forall x, (N.of_nat (max_elems ke x) < 2 ^ 55)%N -> wfit ke se rhs x).
+    { intros x Hx ls ld E1 E2. pose proof (stack_len_bound true rhs x) as [B1 B2]. unfold slen in B1, B2. rewrite E1 in B2. rewrite E2 in B1.
+      pose proof (witness_size_le ls). pose proof (witness_size_le ld). unfold I64MIN, I64MAX.
+      assert ((2 ^ 55 = 36028797018963968)%N) by reflexivity. lia. }
+    set (T := (2 ^ 55)%N) in *. clearbody T.
+    induction m using ms_ind'; cbn [thresh_fit max_elems]; intros Hb; try exact I;
+      try (apply IHm; lia);
+      try (split; [apply IHm1; lia | apply IHm2; lia]);
+      try (split; [apply IHm1; lia | split; [apply IHm2; lia | apply IHm3; lia]]).
+    - assert (Hc : forall x, In x xs -> (N.of_nat (max_elems ke x) < T)%N).
+      { intros x Hx. assert ((max_elems ke x <= list_sum (map (max_elems ke) xs))%nat).
+        { clear -Hx. induction xs as [|y r IH]; [contradiction|]. cbn [map]; rewrite ?list_sum_cons. destruct Hx as [->|Hx]; [lia | specialize (IH Hx); lia]. }
+        lia. }
+      split.
+      + intros _. apply Forall_forall. intros x Hx. apply Hw, Hc, Hx.
+      + clear Hb. induction H as [|x r Hx Hr IHr]; [exact I|]. split; [apply Hx, Hc; left; reflexivity | apply IHr; intros y Hy; apply Hc; right; exact Hy].
+  Qed.
+End LenBound.
